@@ -263,13 +263,17 @@ func BlockOnInteractiveRequests(caller ...string) {
 // SetReadOnly can put the server in a read-only mode.
 func SetReadOnly(on bool) {
 	readonly = on
-	fullwrite = !on
+	if on {
+		fullwrite = false
+	}
 }
 
 // SetFullWrite allows mutations on any version.
 func SetFullWrite(on bool) {
 	fullwrite = on
-	readonly = !on
+	if on {
+		readonly = false
+	}
 }
 
 // SetMonitor can put server in monitor mode (writes load stats to debug if activity).
